@@ -514,6 +514,61 @@ def facts_of(fname, fn, defs, order, rel):
     order.append(nm)
 
 
+LIBC_GLOBALS = ("stderr", "stdout", "stdin")
+
+
+def _is_const(n):
+    q = n.get("type", {}).get("qualType", "")
+    return q.startswith("const ") or " const" in q.split("[")[0] or n.get("constexpr", False)
+
+
+def shared_state_facts():
+    """(readFd_extrabuf_is_automatic, Buffer_shares_no_state, [what was found]) -- seeded change C01_4 made the spill area of
+    readFd `static`: shared by every Buffer on every thread.
+    extrabuf is automatic: the VarDecl named extrabuf inside Buffer::readFd has no storage class (not static / extern), is
+    not thread_local, and is a local of that function.
+    Buffer shares no state: class Buffer has no static data member other than static const constants (kCheapPrepend,
+    kInitialSize, kCRLF), no member function has a static or thread_local local, and no member function refers to a
+    non-const variable declared outside it (namespace scope / other class), libc's stdio handles excepted."""
+    found = []
+    auto = None
+    seen = False
+    for rel in (RELH, REL):
+        for d in cxxast.dump(rel, "muduo::net::Buffer"):
+            if d.get("kind") == "CXXRecordDecl" and d.get("name") == "Buffer":
+                seen = True
+                for n in d.get("inner", []) or []:
+                    if isinstance(n, dict) and n.get("kind") == "VarDecl" and n.get("storageClass") == "static" and not _is_const(n):
+                        found.append("static data member Buffer::%s : %s" % (n.get("name"), n.get("type", {}).get("qualType")))
+            if d.get("kind") == "VarDecl" and not _is_const(d):      # out-of-class definition of a static member
+                found.append("non-const static member definition %s" % d.get("name"))
+            for fn in cxxast.walk(d):
+                if fn.get("kind") not in ("CXXMethodDecl", "CXXConstructorDecl", "CXXDestructorDecl"):
+                    continue
+                if not any(isinstance(c, dict) and c.get("kind") == "CompoundStmt" for c in fn.get("inner", [])):
+                    continue
+                local = set()
+                for n in cxxast.walk(fn):
+                    if n.get("kind") in ("VarDecl", "ParmVarDecl"):
+                        local.add(n.get("id"))
+                        if n.get("kind") == "VarDecl":
+                            shared = n.get("storageClass") in ("static", "extern") or n.get("tls")
+                            if fn.get("name") == "readFd" and n.get("name") == "extrabuf":
+                                auto = not shared
+                            if shared and not (_is_const(n) and not n.get("tls")):
+                                found.append("%s local %s in Buffer::%s" % (n.get("storageClass") or "thread_local", n.get("name"), fn.get("name")))
+                for n in cxxast.walk(fn):
+                    if n.get("kind") == "DeclRefExpr":
+                        r = n.get("referencedDecl", {}) or {}
+                        if r.get("kind") == "VarDecl" and r.get("id") not in local and r.get("name") not in LIBC_GLOBALS and not _is_const(r):
+                            found.append("Buffer::%s refers to the non-local variable %s : %s" % (fn.get("name"), r.get("name"), r.get("type", {}).get("qualType")))
+    if not seen:
+        raise cxxast.Untranslatable("class Buffer not found")
+    if auto is None:
+        raise cxxast.Untranslatable("no local named extrabuf in Buffer::readFd")
+    return auto, (not found), sorted(set(found))
+
+
 def main():
     out = ["(* GENERATED by lib/gen_C10.py from %s/%s (and the Buffer.h it includes) -- do not edit *)" % (cxxast.REPO, REL),
            "From Coq Require Import ZArith Bool String List.", "Import ListNotations.", "Local Open Scope Z_scope.", ""]
@@ -559,6 +614,17 @@ def main():
     for nm in order:
         out.append(defs[nm])
         out.append("")
+    try:
+        auto, noshare, what = shared_state_facts()
+        out.append("(* Buffer::readFd: `extrabuf` has automatic storage (a fresh array per call, on the calling thread's stack): %s *)" % auto)
+        out.append("Definition readFd_extrabuf_is_automatic : bool := %s." % ("true" if auto else "false"))
+        out.append("(* class Buffer: %s *)" % ("; ".join(what).replace("*)", "* )") if what else
+                   "no static data member but the static const constants, no static / thread_local local in a member function, "
+                   "no member function refers to a non-const variable outside its object"))
+        out.append("Definition Buffer_shares_no_state : bool := %s." % ("true" if noshare else "false"))
+        out.append("")
+    except Exception as e:  # noqa
+        msgs.append("MISSING Buffer_shares_no_state (%s)" % e)
     msgs += FAILED
     for r in REQUIRED:
         if r not in defs or defs[r].startswith("(* untranslated"):
